@@ -877,6 +877,32 @@ func pathMatch(p, n string) (bool, error) { return gopath.Match(p, n) }
 func init() {
 	natives["sort.Sort"] = sortModel
 	natives["sort.Stable"] = sortModel
+	// sort.Slice / sort.SliceStable(x, less): insertion sort driven by the interpreted less function (stable; the
+	// library's unstable order for equal elements is one of the orders a stable sort of some input order gives)
+	sliceSort := func(e *Engine, caller *frame, _ *ssa.Function, a []value) value {
+		itf, ok := a[0].(iface)
+		if !ok {
+			e.unsupported("sort.Slice: argument")
+		}
+		s, ok := itf.v.([]value)
+		if !ok {
+			if itf.v == nil {
+				return nil
+			}
+			e.unsupported("sort.Slice: not a slice")
+		}
+		// less takes indices into the slice as it is at the time of the call: sort by swapping in place
+		for i := 1; i < len(s); i++ {
+			for j := i; j > 0 && e.truth(e.call(caller, a[1], []value{uint64(j), uint64(j - 1)})); j-- {
+				e.logStore(&s[j])
+				e.logStore(&s[j-1])
+				s[j], s[j-1] = s[j-1], s[j]
+			}
+		}
+		return nil
+	}
+	natives["sort.Slice"] = sliceSort
+	natives["sort.SliceStable"] = sliceSort
 }
 
 var regexMinCache sync.Map
